@@ -287,3 +287,97 @@ Proof.
     intros b' Hin Hl. exists b'. split; [exact Hin|split; [reflexivity|exact Hl]].
   - destruct (negb (is_failed ccmd bto)); [discriminate|]. destruct (negb _); inversion H; subst. exact T1.
 Qed.
+
+(** ** connectBlock *)
+Lemma find_app_some : forall (l : list (blk ccmd)) x j b, find ccmd l j = Some b -> find ccmd (l ++ [x]) j = Some b.
+Proof. induction l as [|y r IH]; intros x j b H; cbn in *; [discriminate|]. destruct (N.eqb (b_id ccmd y) j); [exact H|apply IH; exact H]. Qed.
+
+Lemma anc_list_app : forall l x n i,
+    (forall j e, cfind l j = Some e -> exists pe, cfind l (e_par e) = Some pe) ->
+    (exists e, cfind l i = Some e) -> anc_list (l ++ [x]) n i = anc_list l n i.
+Proof.
+  intros l x n. induction n as [|n IH]; intros i Hcl (e & He); [reflexivity|]. cbn.
+  assert (Hp : parent (l ++ [x]) i = parent l i).
+  { unfold parent. rewrite (cfind_app_some _ x _ _ He), He. reflexivity. }
+  rewrite Hp. f_equal. apply IH; [exact Hcl|]. unfold parent. rewrite He. eapply Hcl. exact He.
+Qed.
+
+Lemma wf_closed : forall s, wf s -> forall j e, cfind (cores s) j = Some e -> exists pe, cfind (cores s) (e_par e) = Some pe.
+Proof.
+  intros s (ND & (hr & HR) & HP & _) j e He. pose proof (cfind_some _ _ _ He) as [Hid Hin].
+  destruct (N.eq_dec (e_id e) (root _ _ s)) as [Heq|Hne].
+  - pose proof (cfind_in _ _ ND Hin) as F. rewrite Heq, HR in F. inversion F; subst e. exists (root pstate ccmd s, root pstate ccmd s, hr, true). exact HR.
+  - destruct (HP e Hin Hne) as (pe & Hpe & _). exists pe. exact Hpe.
+Qed.
+
+Lemma truthful_connect : forall base s i par dup gs s',
+    wf s -> truthful base s -> c_connect s i par dup gs = Ok s' -> truthful base s'.
+Proof.
+  intros base s i par dup gs s' W T H. unfold c_connect, connect in H.
+  destruct (find ccmd (blocks pstate ccmd s) par) as [pb|] eqn:Fp; [|discriminate].
+  destruct (find ccmd (blocks pstate ccmd s) i) eqn:Fi; [discriminate|].
+  inversion H; subst s'; clear H.
+  set (nb := mkBlk ccmd i par (b_h ccmd pb + 1) L_CONNECTED false dup (is_failed ccmd pb) false gs).
+  intros b' Hin Hl. cbn [blocks with_blocks] in Hin. apply in_app_or in Hin. destruct Hin as [Hin|[<-|[]]]; [|cbn in Hl; discriminate].
+  destruct (T b' Hin Hl) as (pp & Hp). exists pp.
+  assert (NDi : NoDup (ids (blocks _ _ s))).
+  { destruct W as (ND & _). unfold ids. unfold cores in ND. rewrite map_map in ND. exact ND. }
+  pose proof (find_in_blocks _ _ NDi Hin) as Fb. pose proof (find_cfind _ _ _ Fb) as Cb.
+  assert (C' : cores (with_blocks pstate ccmd s (blocks pstate ccmd s ++ [nb])) = cores s ++ [core nb]).
+  { unfold cores. cbn [blocks with_blocks]. rewrite map_app. reflexivity. }
+  assert (Hh : forall j e, cfind (cores s) j = Some e -> hgt (cores s ++ [core nb]) j = hgt (cores s) j).
+  { intros j e He. unfold hgt. rewrite (cfind_app_some _ _ _ _ He), He. reflexivity. }
+  assert (Hd : depth (with_blocks pstate ccmd s (blocks pstate ccmd s ++ [nb])) (b_id ccmd b') = depth s (b_id ccmd b')).
+  { unfold depth. rewrite C'. cbn [root with_blocks]. destruct W as (_ & (hr & HR) & _). rewrite (Hh _ _ Cb), (Hh _ _ HR). reflexivity. }
+  rewrite Hd. unfold bgs. rewrite C'.
+  rewrite (anc_list_app _ _ _ _ (wf_closed s W) (ex_intro _ _ Cb)).
+  assert (Hg : forall j, In j (anc_list (cores s) (depth s (b_id ccmd b')) (b_id ccmd b')) ->
+                         gs_of (with_blocks pstate ccmd s (blocks pstate ccmd s ++ [nb])) j = gs_of s j).
+  { intros j Hj. unfold gs_of. cbn [blocks with_blocks].
+    assert (exists e, cfind (cores s) j = Some e).
+    { clear - Hj W Cb. revert Hj. generalize (depth s (b_id ccmd b')). intros n. revert Cb. generalize (core b'). generalize (b_id ccmd b').
+      induction n as [|n IH]; intros k e Ck Hj; cbn in Hj.
+      - destruct Hj as [<-|[]]. exists e. exact Ck.
+      - destruct Hj as [<-|Hj]; [exists e; exact Ck|].
+        destruct (wf_closed s W _ _ Ck) as (pe & Hpe). apply (IH (parent (cores s) k) pe); [|exact Hj].
+        unfold parent. rewrite Ck. exact Hpe. }
+    destruct H as (e & He). unfold cores in He. rewrite cfind_core in He.
+    destruct (find ccmd (blocks pstate ccmd s) j) as [bj|] eqn:Fj; [|discriminate].
+    rewrite (find_app_some _ _ _ _ Fj). reflexivity. }
+  rewrite (map_ext_in _ _ _ Hg). exact Hp.
+Qed.
+
+(** ** C20: full_validity_truthful over all histories of connectBlock / setState *)
+Lemma tq_run : forall base ops s s', no_compare ops ->
+    quiet s -> canon base s -> truthful base s -> run s ops = Ok s' ->
+    quiet s' /\ canon base s' /\ truthful base s'.
+Proof.
+  induction ops as [|o r IH]; intros s s' NC Q C T H; cbn in H.
+  - inversion H; subst. auto.
+  - destruct (step_op s o) as [s1|] eqn:E; cbn in H; [|discriminate].
+    destruct o as [i par dup gs|to|c sc cr]; cbn in E, NC; [| |destruct NC].
+    + eapply IH; [exact NC| | | |exact H].
+      * eapply quiet_connect; eassumption.
+      * eapply canon_connect; eassumption.
+      * eapply truthful_connect; [exact (proj1 Q)|exact T|exact E].
+    + destruct (c_setState s to) as [[s2 ok]|] eqn:E2; cbn in E; [|discriminate]. inversion E; subst.
+      eapply IH; [exact NC| | | |exact H].
+      * eapply quiet_setState; eassumption.
+      * eapply canon_setState; eassumption.
+      * eapply truthful_setState; eassumption.
+Qed.
+
+Theorem full_validity_truthful : forall base r h ops s,
+    no_compare ops -> run (c_init r h base) ops = Ok s ->
+    forall b, In b (blocks _ _ s) -> N.leb L_FULL (b_lvl _ b) = true ->
+              exists p', replay (bgs s (depth s (b_id _ b)) (b_id _ b)) base = Some p'.
+Proof.
+  intros base r h ops s NC R.
+  assert (X : quiet s /\ canon base s /\ truthful base s).
+  { eapply tq_run; [exact NC|apply quiet_init| | |exact R].
+    - split; cbn; [reflexivity|constructor; [intros []|constructor]].
+    - intros b [<-|[]] _. exists base. unfold depth, bgs, hgt, cores, c_init, init. cbn [blocks root map core b_id b_par b_h b_act cfind e_id fst snd].
+      rewrite N.eqb_refl. cbn [e_h snd fst]. rewrite Z.sub_diag. cbn [Z.to_nat anc_list map rev app].
+      unfold gs_of. cbn [blocks find b_id]. rewrite N.eqb_refl. reflexivity. }
+  exact (proj2 (proj2 X)).
+Qed.
